@@ -500,6 +500,42 @@ def load_known():
     return json.load(open(p))
 
 
+_cones = {}
+
+
+def global_cone(pid):
+    """Functions this property's proof can depend on, ACROSS units: every function that carries one of its clauses (in any unit) and everything those functions transitively call,
+    by simple name (over-approximated) - Env::step in the unit env calls OrderBook::level_2_data in the unit book.  None = could not be computed (then nothing is filtered)."""
+    if pid in _cones:
+        return _cones[pid]
+    fns, seeds = {}, set()
+    try:
+        for unit in ('book', 'market', 'env', 'menv', 'py', 'agents', 'runner'):
+            u = UnitRun(unit, unit + '.vc').build()
+            for f in u.meta['functions']:
+                fns.setdefault(f['name'], f)
+            for o in u.table:
+                if pid in ob.tag_props(o['tags']):
+                    seeds.add(o['fn'])
+    except Exception:
+        _cones[pid] = None
+        return None
+    simple = {}
+    for n in fns:
+        simple.setdefault(n.split('::')[-1], set()).add(n)
+    cone, work = set(seeds), list(seeds)
+    while work:
+        fn = work.pop()
+        for tok in (fns.get(fn, {}).get('skeleton_text') or '').split():
+            if tok.startswith('call:'):
+                for callee in simple.get(tok[5:], ()):
+                    if callee not in cone:
+                        cone.add(callee)
+                        work.append(callee)
+    _cones[pid] = cone
+    return cone
+
+
 def decide_verus_leg(pid, leg, tier, seed, log):
     """-> dict(obligations=[...], refuted=[...], infra=[...], stats)"""
     u = UnitRun(leg['unit'], leg['vcfile'], leg['defines'], leg['variant']).build()
@@ -568,20 +604,8 @@ def decide_verus_leg(pid, leg, tier, seed, log):
     # contracts of callees and nothing else - plus every function that can change state (`&mut`): the invariant every clause assumes must be re-established by all of them.
     # A failed proof of a read-only function outside that cone (a getter this property never calls) says nothing about this property.
     fmeta = {f['name']: f for f in u.meta['functions']}
-    simple = {}
-    for n in fmeta:
-        simple.setdefault(n.split('::')[-1], set()).add(n)
-    cone = {o['fn'] for o in mine} | {o['fn'] for o in pre}
-    work = list(cone)
-    while work:
-        fn = work.pop()
-        for tok in (fmeta.get(fn, {}).get('skeleton_text') or '').split():
-            if tok.startswith('call:'):
-                for callee in simple.get(tok[5:], ()):
-                    if callee not in cone:
-                        cone.add(callee)
-                        work.append(callee)
-    outside = [] if leg.get('dep') else [f for f in other_refuted if f['fn'] in fmeta and f['fn'] not in cone and fmeta[f['fn']].get('readonly')]
+    cone = global_cone(pid)
+    outside = [] if (leg.get('dep') or cone is None) else [f for f in other_refuted if f['fn'] in fmeta and f['fn'] not in cone and fmeta[f['fn']].get('readonly')]
     if outside:
         log('note: unproved obligations in read-only functions this property does not depend on (outside its call cone) are ignored for %s: %s' % (pid, ', '.join(sorted({f['fn'] for f in outside}))))
         other_refuted = [f for f in other_refuted if f not in outside]
